@@ -120,6 +120,9 @@ class Emitter:
         self.din_of = {}
 
     def inp(self, iid, din=None):
+        if iid.startswith("x:"):  # (input & mask): a multi-bit expression used as a condition
+            _, src, msk = iid.split(":")
+            return self.b.inputs[src] & int(msk)
         if iid.startswith("d:"):  # a bit (or the two low bits) of the enclosing method's data_in
             _, mid, bit = iid.split(":")
             x = self.din_of[mid].x
@@ -192,7 +195,10 @@ class Emitter:
         m.d.comb += wc.eq(1)
         m.d.av_comb += wa.eq(1)
         kwargs = {}
-        if n.get("en"):
+        if n.get("en") in ("c0", "c1"):
+            v = int(n["en"] == "c1")
+            kwargs["enable_call"] = [C(v), v, bool(v)][n.get("enform", 0) % 3]
+        elif n.get("en"):
             kwargs["enable_call"] = self.inp(n["en"])
         if tgt["iw"]:
             if n.get("argsrc") == "din" and din is not None:
@@ -288,6 +294,8 @@ def make_combiner(kind, iw):
             return {"x": C(0, iw)}
         if kind == "or":
             return {"x": reduce(lambda a, b: a | b, terms)}
+        if kind == "cnt":  # not the identity on a single call: the sum of the active arguments plus their number
+            return {"x": (reduce(lambda a, b: a + b, terms) + sum(runs[i] for i in range(len(args))))[:iw]}
         return {"x": reduce(lambda a, b: a + b, terms)[:iw]}
 
     return comb
@@ -303,6 +311,8 @@ def make_validator(spec):
             return x < k
         if op == "bit0":
             return x[0] == k
+        if op == "mask":  # a multi-bit result: non-zero means accepted
+            return x & k
         raise ValueError(op)
 
     return val
@@ -310,4 +320,4 @@ def make_validator(spec):
 
 def eval_validator(spec, x):
     op, k = spec
-    return {"ne": x != k, "lt": x < k, "bit0": (x & 1) == k}[op]
+    return {"ne": x != k, "lt": x < k, "bit0": (x & 1) == k, "mask": (x & k) != 0}[op]
